@@ -34,7 +34,7 @@ Base == [ K |-> 1, mach |-> Mach3, arrays |-> 3, maxIngest |-> 2,
           hotCap |-> 30, coldCap |-> 30, hotRate |-> 3, coldRate |-> 2,
           order |-> <<"a", "b">>, obs |-> EmptyFn,
           alg |-> "batch", parts |-> 1, minPer |-> 1, split |-> EmptyFn,
-          extra |-> EmptyFn, plan |-> EmptyFn, advRounds |-> 0, perm |-> {}, canon |-> TRUE, seg |-> FALSE, api |-> FALSE ]
+          extra |-> EmptyFn, plan |-> EmptyFn, advRounds |-> 0, advProv |-> 0, perm |-> {}, canon |-> TRUE, seg |-> FALSE, api |-> FALSE ]
 
 (* static plan: every assignment of tasks to machines; est/eft only order  *)
 (* ties, so a fixed est = node id, eft = est + 1 is enough for the model   *)
@@ -74,7 +74,7 @@ FamW ==
 (* ---- family V: adversarial scheduling algorithm -------------------------- *)
 FamV ==
     {[Base EXCEPT !.order = <<"a">>, !.obs = ("a" :> MkObs(0, 2, 1, 1, 1, wf)), !.mach = Mach2,
-                  !.alg = "adv", !.advRounds = 2] : wf \in {Chain2(2, 1, 1), Fork3(1, 1, 1, 0)}}
+                  !.alg = "adv", !.advRounds = 2, !.advProv = pv] : wf \in {Chain2(2, 1, 1), Fork3(1, 1, 1, 0)}, pv \in {0, 1}}
     \cup
     {[Base EXCEPT !.obs = ("a" :> MkObs(0, 1, 1, 1, 1, Single(2)) @@ "b" :> MkObs(0, 2, 1, 1, 1, Chain2(1, 1, 0))),
                   !.mach = Mach2, !.alg = "adv", !.advRounds = 2, !.arrays = 2, !.maxIngest = 2]}
